@@ -103,7 +103,7 @@ PROPS = {
     },
     "C09": {
         "lean": ["FsnVerif.Props.C09"],
-        "lean_support": ["FsnVerif.Proofs.InvLemmas", "FsnVerif.Proofs.CleanLemmas", "FsnVerif.Proofs.PathLemmas", "FsnVerif.Props.C12", "FsnVerif.Props.C02", "FsnVerif.Model.Inotify"],
+        "lean_support": ["FsnVerif.Proofs.InvLemmas", "FsnVerif.Proofs.CleanLemmas", "FsnVerif.Proofs.PathLemmas", "FsnVerif.Props.C12", "FsnVerif.Props.C02", "FsnVerif.Props.C08", "FsnVerif.Proofs.PathShape", "FsnVerif.Model.Inotify"],
         "stages": [{"name": "inject", "cmd": "inject", "what": "C09", "sessions": True},
                    {"name": "live", "cmd": "live", "what": "C09", "sessions": True}],
         "rule": INJECT_RULE + LIVE_RULE,
